@@ -192,6 +192,49 @@ def check(ck):
     H.assoc_path_shape(ck, 'R16.9')
 
 
+def _part_sources(f, expr):
+    """Which of the parts handed to Composite.merge (the parameters named
+    like the parts, or composite['<part>'] / composite.get('<part>')) flow
+    into the local ``expr`` names - through assignments, in-place updates
+    and deep merges into it."""
+    out = set()
+    names = set(A.names_in(expr))
+    work = list(names)
+    seen = set()
+
+    def scan(v):
+        for x in ast.walk(v):
+            if isinstance(x, ast.Name):
+                if x.id in PARTS:
+                    out.add(x.id)
+                elif x.id not in seen:
+                    work.append(x.id)
+            if isinstance(x, ast.Subscript) and isinstance(
+                    x.slice, ast.Constant) and x.slice.value in PARTS:
+                out.add(x.slice.value)
+            if isinstance(x, ast.Call) and A.call_name(x) == 'get' and \
+                    x.args and isinstance(x.args[0], ast.Constant) and \
+                    x.args[0].value in PARTS:
+                out.add(x.args[0].value)
+    while work:
+        nm = work.pop()
+        if nm in seen:
+            continue
+        seen.add(nm)
+        if nm in PARTS:
+            out.add(nm)
+            continue
+        for d in local_defs(f.node).get(nm, []):
+            if d.value is not None and d.kind != 'param':
+                scan(d.value)
+        for c in A.calls_in(f.node):
+            if A.call_name(c) in ('deep_merge', 'deep_merge_check',
+                                  'deep_merge_combine_lists') and \
+                    len(c.args) >= 2 and A.is_name(c.args[0], nm):
+                scan(c.args[1])
+    return out
+
+
 def r16_1(ck):
     ck.rule('R16.1', 'merge freshness: Composite.merge mutates nothing '
             'that shares structure with a parameter, and what it deep-'
@@ -203,6 +246,7 @@ def r16_1(ck):
     params = ow.params
     n = 0
     merged_into = {}
+    merged_from = {}
     for kind, stmt, tgt, tv, av, arg in events:
         n += 1
         tname = A.unparse(tgt)
@@ -231,9 +275,13 @@ def r16_1(ck):
                        'composite that was merged in' % (
                            tname, sorted(ashared)), stmt)
             an = A.unparse(arg) if arg is not None else ''
-            ck.require(part in an, 'R16.1', f, stmt,
+            srcs = _part_sources(f, arg) if arg is not None else set()
+            merged_from[part] = arg
+            ck.require(part in srcs and not (srcs - {part}), 'R16.1', f,
+                       stmt,
                        'the %s part is merged into self.%s' % (part, part),
-                       'self.%s is merged from %s' % (part, an), stmt)
+                       'self.%s is merged from %s, which is built from the '
+                       '%s given to merge' % (part, an, sorted(srcs)), stmt)
     for part in PARTS:
         ck.require(part in merged_into, 'R16.1', f,
                    'merge into self.' + part,
@@ -245,11 +293,13 @@ def r16_1(ck):
     # every part is embedded at `path` before it is merged into self
     for part in PARTS:
         ok = False
-        for d in local_defs(f.node).get('merge_' + part, []):
+        src = merged_from.get(part)
+        lname = src.id if isinstance(src, ast.Name) else 'merge_' + part
+        for d in local_defs(f.node).get(lname, []):
             v = d.value
             if isinstance(v, ast.Call) and A.call_name(v) == 'assoc_in' \
                     and A.is_name(A.arg_of(v, 1), 'path') and A.is_name(
-                        A.arg_of(v, 2), 'merge_' + part):
+                        A.arg_of(v, 2), lname):
                 ok = True
         ck.require(ok, 'R16.1', f, 'merge_%s at path' % part,
                    'the %s to merge are embedded at the given path' % part,
@@ -298,7 +348,12 @@ def _embedding(ck, f, rule, parts=('processes', 'steps', 'flow',
         v = found.get(part)
         ok = isinstance(v, ast.Call) and A.call_name(v) == 'assoc_in' and \
             len(v.args) == 3 and A.is_empty_const(v.args[0]) and A.is_name(
-                v.args[1], 'path') and A.is_name(v.args[2], part)
+                v.args[1], 'path')
+        if ok:
+            # the embedded value is what generate_<part>() produced
+            src = expand(f.node, v.args[2], enclosing_stmt(v))
+            ok = isinstance(src, ast.Call) and A.call_name(src) == \
+                'generate_' + part
         ck.require(ok, rule, f, v if v is not None else part,
                    "'%s' is embedded with assoc_in({}, path, %s)" % (
                        part, part),
@@ -320,13 +375,21 @@ def _overrides(ck, f, rule, procs_expr, steps_expr):
         tgt = A.arg_of(c, 1, 'processes')
         ok = isinstance(tgt, ast.Name)
         if ok:
+            def is_part(e, at, want):
+                # 'self.steps' literally, or a local that holds what
+                # generate_steps() returned
+                if want.startswith('self.'):
+                    return want in A.unparse(e)
+                x = expand(f.node, e, enclosing_stmt(at))
+                return any(isinstance(y, ast.Call) and A.call_name(y) ==
+                           'generate_' + want for y in ast.walk(x))
             cp = any(isinstance(d.value, ast.Call) and A.call_name(
                 d.value) in ('deep_copy_internal', 'deepcopy') and
-                procs_expr in A.unparse(d.value)
+                is_part(d.value, d.stmt, procs_expr)
                 for d in local_defs(f.node).get(tgt.id, []))
             st = any(A.call_name(m) in ('deep_merge_check', 'deep_merge')
-                     and A.is_name(A.arg_of(m, 0), tgt.id) and steps_expr in
-                     A.unparse(A.arg_of(m, 1))
+                     and A.is_name(A.arg_of(m, 0), tgt.id) and is_part(
+                         A.arg_of(m, 1), m, steps_expr)
                      for m in A.calls_in(f.node))
             ok = cp and st
         ck.require(ok, rule, f, c,
@@ -386,8 +449,9 @@ def r16_2(ck):
     for c in A.calls_in(pg.node, '_override_schemas'):
         a0 = A.arg_of(c, 0)
         ok = isinstance(a0, ast.Dict) and len(a0.keys) == 1 and \
-            A.unparse(a0.keys[0]) == 'name' and 'schema_override' in \
-            A.unparse(a0.values[0])
+            'self.name' in A.unparse(expand(
+                pg.node, a0.keys[0], enclosing_stmt(c))) and \
+            'schema_override' in A.unparse(a0.values[0])
         ck.require(ok, 'R16.2', pg, c,
                    "a process's own override is keyed by its name", None, c)
 
@@ -494,19 +558,27 @@ def r16_4(ck):
     cfg = cfg_of(f.node)
     raises_ = [r for r in A.walk_no_nested(f.node) if isinstance(r, ast.Raise)]
     ok = False
+    # roles: the accumulated dictionary is the one returned; the new part is
+    # what is merged into it with update()
+    acc = {r.value.id for r in A.walk_no_nested(f.node)
+           if isinstance(r, ast.Return) and isinstance(r.value, ast.Name)}
+    acc_ups = [c for c in A.calls_in(f.node, 'update')
+               if isinstance(A.call_receiver(c), ast.Name)
+               and A.call_receiver(c).id in acc and c.args]
+    newn = set()
+    for c in acc_ups:
+        newn |= A.names_in(c.args[0])
     for r in raises_:
         for cond, pol in cfg.guard_edges(cfg.node(r)):
             if pol is True and any(isinstance(x, ast.BinOp) and isinstance(
                     x.op, ast.BitAnd) for x in ast.walk(cond)) and \
-                    'combined' in A.unparse(cond) and 'new' in A.unparse(
-                        cond):
+                    A.names_in(cond) & acc and A.names_in(cond) & newn:
                 ok = True
     ck.require(ok, 'R16.4', f, raises_[0] if raises_ else f.node.name,
                'overlapping keys of two composers raise',
                'MetaComposer no longer rejects composers that produce the '
                'same key: one silently replaces the other')
-    ups = [c for c in A.calls_in(f.node, 'update')
-           if A.is_name(A.call_receiver(c), 'combined')]
+    ups = acc_ups
     tests = [n for n in A.walk_no_nested(f.node) if isinstance(n, ast.If)
              and any(isinstance(x, ast.Raise) for x in n.body)]
     ok = bool(ups) and bool(tests) and cfg.dominates(
@@ -674,6 +746,15 @@ def r16_8(ck):
                if not A.is_name(A.call_receiver(c), 'self')]
         ck.require(bool(rec), 'R16.8', f, f.node.name,
                    'branches are descended into', None)
+    r16_8_paths(ck)
+
+
+def r16_8_paths(ck, rule='R16.8'):
+    """_generate_paths stores each process with its own topology and
+    distributes its current get_schema()."""
+    if rule not in ck.rules:
+        ck.rule(rule, '_generate_paths stores each process with its '
+                'topology and the schema including overrides')
     gp = ck.fn('Store._generate_paths', 'core.store')
     cfg = cfg_of(gp.node)
     sch = None
@@ -683,27 +764,42 @@ def r16_8(ck):
                 for k in d.keys):
             sch = d
     ok = False
-    if sch is not None:
+    # roles: the loop over the processes argument gives (key, process); the
+    # process's own topology is <topology argument>[key]
+    gpp = A.params_of(gp.node)
+    keyv = procv = None
+    for lp in A.walk_no_nested(gp.node):
+        if isinstance(lp, ast.For) and gpp[1] in A.names_in(lp.iter) and \
+                isinstance(lp.target, ast.Tuple) and len(
+                    lp.target.elts) == 2:
+            keyv, procv = (A.unparse(e) for e in lp.target.elts)
+
+    def own_topology(e, at):
+        x = expand(gp.node, e, enclosing_stmt(at))
+        return isinstance(x, ast.Subscript) and A.is_name(
+            x.value, gpp[3]) and A.unparse(x.slice) == keyv
+    if sch is not None and procv:
         kv = {k.value: v for k, v in zip(sch.keys, sch.values)
               if isinstance(k, ast.Constant)}
-        ok = A.is_name(kv.get('_value'), 'subprocess') and A.is_name(
-            kv.get('_topology'), 'subtopology') and isinstance(
+        ok = A.is_name(kv.get('_value'), procv) and kv.get(
+            '_topology') is not None and own_topology(
+            kv['_topology'], sch) and isinstance(
             kv.get('_updater'), ast.Constant) and \
             kv['_updater'].value == 'set'
-    ck.require(ok, 'R16.8', gp, sch if sch is not None else gp.node.name,
+    ck.require(ok, rule, gp, sch if sch is not None else gp.node.name,
                "a process node holds the process ('_value'), its own "
                "topology and the 'set' updater", None)
     sets = [s2 for s2 in A.walk_no_nested(gp.node)
             if isinstance(s2, ast.Assign) and A.unparse(
-                s2.targets[0]) == 'subprocess.schema']
+                s2.targets[0]) == '%s.schema' % procv]
     ports = [c for c in A.calls_in(gp.node, '_topology_ports')]
     ok = bool(sets) and bool(ports) and isinstance(
         sets[0].value, ast.Call) and A.call_name(
         sets[0].value) == 'get_schema' and cfg.dominates(
         cfg.node(sets[0]), cfg.node(ports[0])) and A.unparse(
-        A.arg_of(ports[0], 0)) == 'subprocess.schema' and A.is_name(
-        A.arg_of(ports[0], 1), 'subtopology')
-    ck.require(ok, 'R16.8', gp, ports[0] if ports else gp.node.name,
+        A.arg_of(ports[0], 0)) == '%s.schema' % procv and own_topology(
+        A.arg_of(ports[0], 1), ports[0])
+    ck.require(ok, rule, gp, ports[0] if ports else gp.node.name,
                "the ports are distributed from the process's get_schema() "
                '(overrides included) with its own topology',
                '_generate_paths does not distribute subprocess.get_schema() '
